@@ -55,12 +55,13 @@ typedef struct {
   int f_kind; long f_at; int f_persist; int f_on; int f_fired;
   int noseek, notell;
   int cblog;
-  long skv[48]; int nskv;        /* absolute offsets of the seeks issued during the current API call (first 48) */
+  long skv[400]; int nskv;       /* absolute offsets of the seeks issued during the current API call (first 400) */
 } src_t;
 
 typedef struct { OggVorbis_File vf; src_t src; int live; int opened; file_t *F; long long delivered; } hnd_t;
 static hnd_t H[MAXH];
 static int g_cblog=0;
+static int g_sklog=0;
 
 /* ---------------- callbacks ---------------- */
 static size_t cb_read(void *ptr,size_t size,size_t nmemb,void *ds){
@@ -98,7 +99,7 @@ static int cb_seek(void *ds,ogg_int64_t off,int whence){
   if(faulty){ s->f_fired++; if(s->cblog){ev_begin("CbSeek");ev_i("off",off);ev_i("wh",whence);ev_i("ret",-1);ev_end();} return -1; }
   long np = whence==SEEK_SET? (long)off : whence==SEEK_CUR? s->pos+(long)off : s->F->len+(long)off;
   if(np<0) { if(s->cblog){ev_begin("CbSeek");ev_i("off",off);ev_i("wh",whence);ev_i("ret",-1);ev_end();} return -1; }
-  s->pos=np; if(s->nskv<48) s->skv[s->nskv++]=np;
+  s->pos=np; if(s->nskv<400) s->skv[s->nskv++]=np;
   if(s->cblog){ev_begin("CbSeek");ev_i("off",off);ev_i("wh",whence);ev_i("ret",0);ev_i("pos",s->pos);ev_end();}
   return 0;
 }
@@ -114,7 +115,6 @@ static int cb_close(void *ds){ src_t *s=ds; s->closes++; if(s->cblog){ev_begin("
 /* ---------------- projection of a handle ---------------- */
 static int is_zero(const void *p,size_t n){ const unsigned char *b=p; for(size_t i=0;i<n;i++) if(b[i]) return 0; return 1; }
 static long cb0[MAXH][3];
-static int g_sklog=0;
 static void call_begin(int h){ H[h].src.nskv=0; cb0[h][0]=H[h].src.nread; cb0[h][1]=H[h].src.nseek; cb0[h][2]=H[h].src.ntell; }
 static void ev_state(int h){
   hnd_t *x=&H[h]; OggVorbis_File *vf=&x->vf;
@@ -189,6 +189,11 @@ static void do_open(int h,file_t *F,const char *mode,long init){
   x->opened=(ret==0); x->live=1;
   ev_begin("Open"); ev_i("f",F->id); ev_s("mode",mode); ev_i("init",init); ev_i("ret",ret); ev_state(h);
   if(ret==0) ev_linktable(h);
+  if(g_sklog){ char t[200]; ev_arr_begin("probes"); for(int k=0;k<x->src.nskv;k++){ snprintf(t,sizeof t,"%ld",x->src.skv[k]); ev_arr_raw(t); } ev_arr_end();
+    /* the link table as the library built it (public fields of OggVorbis_File) */
+    ev_arr_begin("tab"); if(ret==0&&x->vf.seekable&&x->vf.offsets&&x->vf.dataoffsets&&x->vf.pcmlengths&&x->vf.serialnos) for(int i=0;i<x->vf.links&&i<64;i++){
+      snprintf(t,sizeof t,"{\"off\":%lld,\"ser\":%ld,\"doff\":%lld,\"first\":%lld,\"len\":%lld}",(long long)x->vf.offsets[i],x->vf.serialnos[i],(long long)x->vf.dataoffsets[i],(long long)clamp31(x->vf.pcmlengths[2*i]),(long long)clamp31(x->vf.pcmlengths[2*i+1])); ev_arr_raw(t); }
+    ev_arr_end(); }
   ev_end();
 }
 
@@ -448,9 +453,13 @@ static int run_scenario(int from,int to,const char *name,int budget){
     else if(!strcmp(c,"pages")&&nt>=2){ file_t *F=g_files[atoi(tok[1])]; if(F){
         /* the page table as libogg sees it: offset, length, link (-1: a stream that is not one of the Vorbis links), granule position, continued flag */
         ev_begin("Pages"); ev_i("f",F->id); ev_i("len",F->len); ev_arr_begin("pg");
-        for(int j=0;j<F->npages&&j<4000;j++){ page_t *q=&F->pages[j]; char t[160]; snprintf(t,sizeof t,"{\"o\":%ld,\"n\":%ld,\"l\":%d,\"g\":%lld,\"c\":%d}",q->off,q->len,q->link,(long long)(q->gp>2000000000LL?2000000000LL:q->gp),q->cont); ev_arr_raw(t); }
+        { int cur=-1; long k=0,last=-1;     /* per link: running audio packet index and the previous block size, for the samples the packets of a page account for */
+        for(int j=0;j<F->npages&&j<4000;j++){ page_t *q=&F->pages[j]; char t[200]; long dur=0;
+          if(q->link>=0){ if(q->link!=cur){ cur=q->link; k=0; last=-1; }
+            if(q->off>=F->dataoff[cur]){ link_t *L=F->links[cur]; for(int n=0;n<q->npk&&3+k<L->npk;n++,k++){ long b=L->pk[3+k].W?L->bs1:L->bs0; if(last!=-1) dur+=(last+b)>>2; last=b; } } }
+          snprintf(t,sizeof t,"{\"o\":%ld,\"n\":%ld,\"l\":%d,\"g\":%lld,\"c\":%d,\"s\":%ld,\"b\":%d,\"k\":%d,\"d\":%ld}",q->off,q->len,q->link,(long long)(q->gp>2000000000LL?2000000000LL:q->gp),q->cont,q->serial,q->bos,q->npk,dur); ev_arr_raw(t); } }
         ev_arr_end();
-        ev_arr_begin("lk"); for(int i=0;i<F->nlinks;i++){ char t[200]; snprintf(t,sizeof t,"{\"doff\":%ld,\"end\":%ld,\"g0\":%lld,\"N\":%ld,\"start\":%ld}",F->dataoff[i],F->lend[i],(long long)F->gpoff[i],F->links[i]->nref,F->start[i]); ev_arr_raw(t); } ev_arr_end();
+        ev_arr_begin("lk"); for(int i=0;i<F->nlinks;i++){ char t[200]; snprintf(t,sizeof t,"{\"doff\":%ld,\"end\":%ld,\"g0\":%lld,\"N\":%ld,\"start\":%ld,\"ser\":%ld,\"beg\":%ld}",F->dataoff[i],F->lend[i],(long long)F->gpoff[i],F->links[i]->nref,F->start[i],F->serials[i],F->lbeg[i]); ev_arr_raw(t); } ev_arr_end();
         ev_end(); } }
     else if(!strcmp(c,"cblog")&&nt>=2){ g_cblog=atoi(tok[1]); for(int h=0;h<MAXH;h++) H[h].src.cblog=g_cblog; }
     free(ln);
